@@ -52,13 +52,14 @@ def sut_chebyshev_reuse(X, y):
     """A user callable that returns the same output array on every call of a given length (a common optimisation in
     user code); whoever keeps the result must copy it."""
     from ..engines import simmpi
-    key = (simmpi.COMM_WORLD.Get_rank(), len(X))       # one buffer per (simulated) process
+    key = simmpi.COMM_WORLD.Get_rank()                  # one scratch buffer per (simulated) process
     n = len(X)
     buf = _REUSE.get(key)
-    if buf is None:
-        buf = _REUSE[key] = np.empty(n, dtype=np.float64)
-    buf[...] = np.abs(np.asarray(X, dtype=np.float64) - np.asarray(y, dtype=np.float64)).max(axis=1)
-    return buf
+    if buf is None or len(buf) < n:
+        buf = _REUSE[key] = np.empty(max(n, 256), dtype=np.float64)
+    out = buf[:n]                                       # a prefix view: calls of ANY length share this memory
+    out[...] = np.abs(np.asarray(X, dtype=np.float64) - np.asarray(y, dtype=np.float64)).max(axis=1)
+    return out
 
 
 _TOPS = {}
